@@ -1,7 +1,8 @@
 CONSTANTS
   Dev = {}
   Alphabet <- AlphaObj
-  MaxLen = 6
+  MaxLen = 8
+  Prune = TRUE
   DepthProbe = {0, 1, 2, 256}
 INIT Init
 NEXT Next
